@@ -8,6 +8,7 @@ import (
 	"io"
 	"net/http"
 	"net/http/httptest"
+	"strings"
 
 	"github.com/getkin/kin-openapi/openapi3"
 	"github.com/getkin/kin-openapi/openapi3filter"
@@ -38,6 +39,7 @@ type c08Case struct {
 	Hdrs          []c08Hdr `json:"hdrs"`
 	Extra         bool     `json:"extra"`
 	Pad           string   `json:"pad"`
+	Variant       string   `json:"variant"`
 }
 
 // one declared response header of part "hdr": the schema is an abstract schema of spec/SchemaSem.tla
@@ -48,6 +50,8 @@ type c08Hdr struct {
 	Explode bool   `json:"explode"`
 	Present bool   `json:"present"`
 	Text    string `json:"text"`
+	Cs2     []any  `json:"cs2"` // a second field line of the same header (absent: one line)
+	Text2   string `json:"text2"`
 }
 
 func c08Run(c *Case) []any {
@@ -97,6 +101,7 @@ func c08Validate(in *openapi3filter.ResponseValidationInput) string {
 func c08Build(tcp *c08Case) (*openapi3filter.ResponseValidationInput, []byte, error) {
 	tc := *tcp
 	responses := map[string]any{}
+	var components map[string]any
 	status := 200
 	method := "GET"
 	hdr := http.Header{}
@@ -169,6 +174,8 @@ func c08Build(tcp *c08Case) (*openapi3filter.ResponseValidationInput, []byte, er
 			r["content"] = map[string]any{"application/*": map[string]any{"schema": bodySchema}}
 		case "jsonAndText":
 			r["content"] = map[string]any{"application/json": map[string]any{"schema": bodySchema}, "text/plain": map[string]any{"schema": textSchema}}
+		case "any":
+			r["content"] = map[string]any{"*/*": map[string]any{"schema": bodySchema}}
 		}
 		if tc.Part == "hdr" {
 			hs := map[string]any{}
@@ -177,6 +184,9 @@ func c08Build(tcp *c08Case) (*openapi3filter.ResponseValidationInput, []byte, er
 				if h.Present {
 					// as net/http stores a received header: canonical key, one field line, the text as sent (possibly empty)
 					hdr[http.CanonicalHeaderKey(h.Name)] = []string{h.Text}
+					if h.Cs2 != nil {
+						hdr[http.CanonicalHeaderKey(h.Name)] = []string{h.Text, h.Text2}
+					}
 				}
 			}
 			r["headers"] = hs
@@ -185,6 +195,32 @@ func c08Build(tcp *c08Case) (*openapi3filter.ResponseValidationInput, []byte, er
 			}
 		}
 		responses["200"] = r
+		if tc.Variant == "ref" {
+			// the same definition, every part of it reached through a reference
+			comps := map[string]any{"responses": map[string]any{"R": r}}
+			responses["200"] = map[string]any{"$ref": "#/components/responses/R"}
+			if hs, ok := r["headers"].(map[string]any); ok {
+				ch := map[string]any{}
+				for name, h := range hs {
+					id := "H" + strings.ReplaceAll(name, "-", "")
+					ch[id] = h
+					hs[name] = map[string]any{"$ref": "#/components/headers/" + id}
+				}
+				comps["headers"] = ch
+			}
+			if ct, ok := r["content"].(map[string]any); ok {
+				cs := map[string]any{}
+				for mt, m := range ct {
+					if mm, ok := m.(map[string]any); ok && mm["schema"] != nil {
+						id := "S" + strings.NewReplacer("/", "", "*", "x", "+", "").Replace(mt)
+						cs[id] = mm["schema"]
+						mm["schema"] = map[string]any{"$ref": "#/components/schemas/" + id}
+					}
+				}
+				comps["schemas"] = cs
+			}
+			components = comps
+		}
 		if tc.Part != "hdr" && tc.Hv != "absent" {
 			hdr.Set("X-A", tc.Hv)
 		}
@@ -204,6 +240,9 @@ func c08Build(tcp *c08Case) (*openapi3filter.ResponseValidationInput, []byte, er
 	op := map[string]any{"responses": responses}
 	doc := map[string]any{"openapi": "3.0.3", "info": map[string]any{"title": "t", "version": "1"},
 		"paths": map[string]any{"/t": map[string]any{"get": op, "head": op}}}
+	if components != nil {
+		doc["components"] = components
+	}
 	data, _ := json.Marshal(doc)
 	d, err := openapi3.NewLoader().LoadFromData(data)
 	if err == nil {
@@ -224,6 +263,9 @@ func c08Build(tcp *c08Case) (*openapi3filter.ResponseValidationInput, []byte, er
 	in := &openapi3filter.ResponseValidationInput{
 		RequestValidationInput: &openapi3filter.RequestValidationInput{Request: req, PathParams: pp, Route: route, Options: opts},
 		Status:                 status, Header: hdr, Body: io.NopCloser(bytes.NewReader(body)), Options: opts}
+	if tc.Variant == "nilopts" {
+		in.Options, in.RequestValidationInput.Options = nil, nil
+	}
 	return in, body, nil
 }
 
